@@ -1,3 +1,5 @@
+#[cfg(repe_verif_loom)]
+use crate::verif_loom::std_shadow as std;
 use crate::constants::{BodyFormat, ErrorCode};
 use crate::message::Message;
 use crate::peer::CallContext;
